@@ -250,6 +250,9 @@ func Batches[T any, Slice ~[]T](vs Slice, n int) []Slice {
 	} else if n > len(vs) {
 		n = len(vs)
 	}
+	if n == 0 {
+		return nil // vs is empty, there is nothing to divide
+	}
 	out := make([]Slice, 0, n)
 	i, size, rem := 0, len(vs)/n, len(vs)%n
 	for i < len(vs) {
